@@ -197,6 +197,7 @@ impl TraitHandler for PartialEqEnumHandler {
         token_stream.extend(quote! {
             impl #impl_generics ::core::cmp::PartialEq for #ident #ty_generics #where_clause {
                 #[inline]
+                #[allow(non_snake_case)]
                 fn eq(&self, other: &Self) -> bool {
                     #eq_token_stream
 
